@@ -50,19 +50,21 @@ REPO = os.environ.get("VERIF_REPO", "/repo")
 # the run-time contract
 # -----------------------------------------------------------------------------
 def eval_verdict(case):
-    """case: trees, expr, dialect, stop, dry_run, cli_wip, k, exc, cleanup ({sid, layer} or None)."""
+    """case: trees, expr, dialect, stop, dry_run, cli_wip, k, exc, cleanup ({sid, layer} or None),
+    cafs (Scenario.continue_after_failed_step set on every scenario)."""
     trees = case["trees"]
     expr = case.get("expr")
     stop, dry = bool(case.get("stop")), bool(case.get("dry_run"))
     cli_wip = bool(case.get("cli_wip"))
     k = case.get("k")
     cleanup = case.get("cleanup")
+    cafs = bool(case.get("cafs"))
     spec_expr, spec_stop = expr, stop
     if cli_wip:         # documented: only scenarios tagged wip, stop at the first failure
         spec_expr = AND(expr, T("wip")) if expr is not None else T("wip")
         spec_stop = True
     cleanups = {cleanup["sid"]: cleanup["layer"]} if cleanup else {}
-    ip = Interp(trees, spec_expr, spec_stop, dry, cleanups=cleanups).run()
+    ip = Interp(trees, spec_expr, spec_stop, dry, cleanups=cleanups, cafs=cafs).run()
     expected = ip.bad
     args = flag_args(stop, dry) + (["--wip"] if cli_wip else [])
     if expr is not None:
@@ -79,7 +81,7 @@ def eval_verdict(case):
                 else:
                     context.add_cleanup(raising_cleanup, layer=_c["layer"])
     exc = {"RuntimeError": RuntimeError, "AssertionError": AssertionError}[case.get("exc", "RuntimeError")]
-    obs = run2(trees, args, raise_at=[k] if k is not None else (), raise_exc=exc, on_step=on_step)
+    obs = run2(trees, args, raise_at=[k] if k is not None else (), raise_exc=exc, on_step=on_step, cafs=cafs)
     notes = []
     if k is not None:
         # a raising hook is a bad event as soon as it is invoked, whatever else changes
@@ -148,6 +150,12 @@ def run_one_scenario(tier, rng):
         for seq in seqs(OUTCOMES, lo, hi):
             for stop, dry, wip in flags:
                 case = {"trees": one_scenario_tree(shape, seq, wip), "stop": stop, "dry_run": dry}
+                yield eval_verdict(case)
+    # continue_after_failed_step: later steps still run after a failure; the verdict must not forget the failure
+    for shape, lo, hi in (("plain", 2, 3), ("row", 2, 2)) if tier == "quick" else (("plain", 2, 3), ("nested", 2, 3), ("row", 2, 3)):
+        for seq in seqs(OUTCOMES, lo, hi):
+            for stop in (False, True):
+                case = {"trees": one_scenario_tree(shape, seq, False), "stop": stop, "dry_run": False, "cafs": True}
                 yield eval_verdict(case)
 
 
@@ -415,9 +423,12 @@ CHECKS = [
         "verdict-one-scenario",
         bound={"quick": _ONE + "plain x all 399 sequences of length 1..3 x {none, --stop, --dry-run, @wip}; "
                                "nested and row x all 56 sequences of length 1..2 x all 8 flag subsets; split x 49 "
-                               "sequences of length 2 x the 4 single flags, split x 343 sequences of length 3 x no flag",
+                               "sequences of length 2 x the 4 single flags, split x 343 sequences of length 3 x no flag; with "
+                               "Scenario.continue_after_failed_step on: plain x all 392 sequences of length 2..3 and row x all "
+                               "49 of length 2, each x {none, --stop}",
                "thorough": _ONE + "plain, nested, row x all 399 sequences of length 1..3 x all 8 flag subsets; "
-                                  "split x all 392 sequences of length 2..3 x all 8 flag subsets"},
+                                  "split x all 392 sequences of length 2..3 x all 8 flag subsets; with "
+                                  "continue_after_failed_step on: plain, nested, row x all 392 sequences of length 2..3 x {none, --stop}"},
         run=run_one_scenario, replay=replay_verdict,
         contract="bool(ModelRunner.run()) == something_went_wrong(tree, flags) where the right side is computed by "
                  "the harness's interpreter from the step outcomes written in the tree (module docstring); no "
